@@ -51,6 +51,11 @@ def run(tier):
         return json.loads(r.stdout)
     with ThreadPoolExecutor(C.NPROC) as pool:
         res = list(pool.map(one, KINDS))
+    # lists that come out of the parser, merged in place (what the parser shares between rules is shared here too)
+    pj = one('parsed')
+    for v in pj['violations']:
+        fnd.report(v['sig'], '%s (x%d): input %s' % (v['what'], v['count'], ' | '.join(v['input'])), {'kind': 'parsed', 'rules': v['input']})
+    ev.add(transitions=pj['lists'], parsed_lists_merged=pj['lists'])
     conf = []
     for j in res:
         ev.add(states=j['n'], transitions=j['lists'], lists_merged=j['lists'])
